@@ -415,6 +415,37 @@ fn faulted_to_json(f: &Faulted, case: &Case) -> Value {
 fn one_run(seed: u64, run: u64, max_positions: usize) -> RunResult {
     let mut rng = Rng::new(mix(seed, "C07", run));
     let knobs = random_knobs(&mut rng);
+    if run % 40 == 29 {
+        let kind = RUNTIME_KINDS[rng.usize(RUNTIME_KINDS.len())];
+        let name = if rng.chance(1, 3) { "unless".to_string() } else { format!("rk{}", run % 97) };
+        let variant = rng.below(4);
+        let mut res = RunResult {
+            evals: 1,
+            positions: 1,
+            kinds: BTreeMap::new(),
+            injected_failures: 1,
+            later_checked: 4,
+            traces: 0,
+            discarded: 0,
+            nontrivial_keys: vec![fnv64(format!("{}{}{}", name, variant, kind.name()).as_bytes())],
+            instrs: 0,
+            violation: None,
+            sample: None,
+            workload: "keyword-rebound-before-failure",
+        };
+        *res.kinds.entry(kind.name()).or_insert(0) += 1;
+        if let Some((sig, detail)) = keyword_rebind_check(&name, variant, kind, run) {
+            res.violation = Some(Violation {
+                property: "C07".into(),
+                oracle: "never-failed twin".into(),
+                signature: sig,
+                run,
+                case: json!({"keyword_rebind": {"name": name, "variant": variant, "kind": kind.name(), "n": run}}),
+                detail,
+            });
+        }
+        return res;
+    }
     if run % 10 == 9 {
         // nested syntax definitions in failing forms
         let f = if run % 20 == 9 {
@@ -708,6 +739,60 @@ fn unbound_then_defined_case(rng: &mut Rng, run: u64) -> Faulted {
     }
 }
 
+/// A form uses a derived-form keyword, rebinds it (the rebinding completes) and then fails. The
+/// reference machine has no syntax-rules, so the oracle here is the never-failed twin alone: the
+/// same session in which the failing expression is an escape through a continuation instead.
+/// Later uses of the keyword must agree.
+fn keyword_rebind_texts(name: &str, variant: u64, fault: &str) -> (Vec<String>, usize) {
+    let old_rules = format!("(define-syntax {} (syntax-rules () ((_ a) (list 'old-macro a)) ((_ a b) (list 'old-macro a b))))", name);
+    let new_rules = format!("(define-syntax {} (syntax-rules () ((_ a) (list 'new-macro a)) ((_ a b) (list 'new-macro b a))))", name);
+    let failing = match variant % 4 {
+        0 => format!("(begin ({} 1) {} {})", name, new_rules, fault),
+        1 => format!("(list ({} 1 2) (begin {} 'rebound) {})", name, new_rules, fault),
+        2 => format!("(let ((t ({} 5))) {} (set! {} (lambda (a . b) (list 'now-a-procedure a b))) {})", name, "'x", name, fault),
+        _ => format!("((lambda () ({} 1) {} (car ({} 2)) {}))", name, new_rules, name, fault),
+    };
+    let mut texts: Vec<String> = setup_forms().iter().map(|f| f.text()).collect();
+    texts.push(old_rules);
+    texts.push(format!("({} 7)", name));
+    let failing_index = texts.len();
+    texts.push(failing);
+    texts.push(format!("({} 2)", name));
+    texts.push("(car '())".to_string());
+    texts.push(format!("({} 3 4)", name));
+    texts.push(format!("(list ({} 'x) (when #t 1))", name));
+    (texts, failing_index)
+}
+
+fn keyword_rebind_check(name: &str, variant: u64, kind: FaultKind, n: u64) -> Option<(String, String)> {
+    let fault = vm_text(&kind.vm_expr(n));
+    let (failing_texts, idx) = keyword_rebind_texts(name, variant, &fault);
+    let (mut twin_texts, _) = keyword_rebind_texts(name, variant, "(%abort-k 'aborted)");
+    twin_texts[idx] = format!("(call/cc (lambda (%k) (set! %abort-k %k) {}))", twin_texts[idx]);
+    let run = |texts: &[String]| -> Vec<String> {
+        let mut sim = Sim::new(&Knobs::default(), GcPlan::None, SlicePlan::None, 1);
+        sim.set_gc_mode(GcMode::Normal);
+        texts.iter().map(|t| sim.eval_form(t).outcome.brief()).collect()
+    };
+    let a = run(&failing_texts);
+    let b = run(&twin_texts);
+    if !a[idx].starts_with("error") {
+        return None; // the injected failure did not fail in this shape: nothing to judge
+    }
+    for i in idx + 1..a.len() {
+        if a[i] != b[i] {
+            return Some((
+                "C07 twin keyword-rebound-before-failure".to_string(),
+                format!(
+                    "form {}: {}\n  VM whose form {} failed ({}): {}\n  VM that never failed:   {}\n  failing form: {}",
+                    i, failing_texts[i], idx, a[idx], a[i], b[i], failing_texts[idx]
+                ),
+            ));
+        }
+    }
+    None
+}
+
 fn rng_hash(a: u64, b: usize) -> u64 {
     let mut s = a ^ (b as u64).wrapping_mul(0x9E37_79B9_7F4A_7C15);
     crate::rng::splitmix(&mut s)
@@ -800,6 +885,22 @@ pub fn run(tier: Tier, seed: u64, ev: &mut Evidence) -> Vec<Violation> {
 }
 
 pub fn replay(case: &Value) -> Result<Option<Violation>, String> {
+    if let Some(k) = case.get("keyword_rebind") {
+        let kind = ALL_KINDS
+            .iter()
+            .find(|x| Some(x.name()) == k["kind"].as_str())
+            .cloned()
+            .ok_or("unknown fault kind")?;
+        let name = k["name"].as_str().unwrap_or("rk0").to_string();
+        return Ok(keyword_rebind_check(&name, k["variant"].as_u64().unwrap_or(0), kind, k["n"].as_u64().unwrap_or(0)).map(|(sig, detail)| Violation {
+            property: "C07".into(),
+            oracle: "never-failed twin".into(),
+            signature: sig,
+            run: 0,
+            case: case.clone(),
+            detail,
+        }));
+    }
     if let Some(b) = case.get("burst") {
         let kind = ALL_KINDS
             .iter()
